@@ -46,6 +46,7 @@ def run(ctx):
         ctx.guard("C11", "traits", lambda: vis.trait_census(ctx, prog, scope=None))
         ctx.guard("C11", "casts", lambda: casts.census(ctx, prog, scope=None, floor=15))
         ctx.guard("C11", "summaries", lambda: summary.check(ctx, prog, r'internals::(hash|hash_dual|compare)::(?!.*(Windows|compare_easy))', floor=50))
+        ctx.guard("C11", "generic consts", lambda: summary.check_consts(ctx, prog, floor=13))
         ctx.guard("C11", "path summaries", lambda: summary.check_paths(ctx, prog, r'internals::(hash|hash_dual|compare)::(?!.*(Windows|compare_easy))', floor=39))
     if ctx.tier == "thorough":
         ctx.cfg = "witness"
